@@ -340,14 +340,53 @@ def wire_check(run, quick, seed):
     run.extra["session_histories_over_tcp"] = {"scenarios": len(scns), "steps": n, "quiet_ms": 40, "rejected_first_run": len(rej)}
     if not rej:
         return []
+    # what was on the wire is a fact, whatever the timing: a message that is not correctly framed (C01) needs no second run
+    hard = [r for r in rej if r[0] == "C01"]
     ids = {r[1].split("#")[0] for r in rej}
     again = [s for s in scns if s["id"] in ids]
     rej2, _ = wire_once(run, binp, again, "again")
     keys2 = {(r[0], r[1], r[2]) for r in rej2}
-    both = [r for r in rej if (r[0], r[1], r[2]) in keys2]
+    both = hard + [r for r in rej if (r[0], r[1], r[2]) in keys2 and r[0] != "C01"]
     run.extra["session_histories_over_tcp"]["rejected_in_both_runs"] = len(both)
     byid = {s["id"]: s for s in scns}
     for r in both:
         if isinstance(r[3], dict):
             r[3]["wire_scenario"] = byid.get(r[1].split("#")[0])
     return both
+
+
+# ---- arbitrary byte strings on the inbound path of a running session (harness/stack TestWireGarbage; C11) ----
+
+FIXED_GARBAGE = [b"\x01", b"\x01\x01", b"X\x01", b"XY\x01", b"=\x01", b"1\x01", b"10\x01", b"10=\x01", b"10=1\x01", b"8=\x01", b"\x01\x0110=000\x01",
+                 b"8=FIX.4.4\x01\x019=5\x0135=0\x0110=000\x01", b"8=FIX.4.4\x019=\x0135=0\x0110=000\x01", b"35=\x0110=\x01", b"\x00\x01\x00\x01",
+                 b"8=FIX.4.4\x019=5\x0135=0\x01\x0110=161\x01", b"9\x01", b"35\x01", b"34=\x0110=1\x01", b"A" * 5000 + b"\x01", b"10=" * 2000 + b"\x01"]
+
+
+def garbage_check(run, inputs):
+    """-> rejects [["C11", id, what, detail]]; a panic of the library inside the driver raises LibraryPanic"""
+    binp = go_test_build("./stack/", "stack.test", tags="verif")
+    d = run.sub("garbage")
+    inp = os.path.join(d, "in.json")
+    allin = [list(b) for b in FIXED_GARBAGE] + inputs
+    with open(inp, "w") as f:
+        json.dump({"inputs": allin}, f)
+    env = goenv()
+    env["VERIF_STACK_IN"], env["VERIF_STACK_OUT"] = inp, d
+    p = sh([binp, "-test.run", "TestWireGarbage", "-test.timeout", "900s"], cwd=d, env=env, timeout=960, check=False)
+    txt = p.stdout or ""
+    res = os.path.join(d, "garbage.json")
+    if p.returncode != 0 or not os.path.exists(res):
+        if "panic:" in txt and "simplefix-go" in txt:
+            import re
+            m = re.search(r"^panic: (.*)$", txt, re.M)
+            raise sc.LibraryPanic(m.group(1) if m else "panic", txt[m.start():m.start() + 3000] if m else txt[-3000:], "garbage on the inbound path")
+        raise Inconclusive("garbage driver failed:\n" + txt[-2500:])
+    o = json.load(open(res))
+    run.records += o["wire"] + o["direct"]
+    run.extra["arbitrary_bytes_on_the_inbound_path"] = dict(o, inputs=len(allin))
+    rej = []
+    if o["blocked"] > 0:
+        rej.append(["C11", "garbage/direct", "the inbound path did not return for a byte string handed to ServeIncoming", {"blocked": o["blocked"]}])
+    if not o["stillServing"]:
+        rej.append(["C11", "garbage/wire", "the acceptor does not serve a fresh connection after arbitrary byte strings were sent to it", {"inputs": len(allin)}])
+    return rej
